@@ -92,11 +92,11 @@ def tie_status(untranslated):
         b = starts[idx + 1][0] - 1 if idx + 1 < len(starts) else len(lines)
         return "\n".join(lines[a:b])
     failing = []
-    for m in re.finditer(r"GenTie\.lean:(\d+):\d+: error", out):
+    for m in re.finditer(r"error: \S*GenTie\.lean:(\d+):\d+", out):
         nm = owner(int(m.group(1)))
         if nm and nm not in failing:
             failing.append(nm)
-    core_broken = bool(re.search(r"Generated/Core\.lean:\d+:\d+: error", out)) or "BS.Generated.Core" in "".join(re.findall(r"✖ \[\d+/\d+\] Building (\S+)", out))
+    core_broken = bool(re.search(r"error: \S*Generated/Core\.lean:\d+:\d+", out)) or "BS.Generated.Core" in "".join(re.findall(r"✖ \[\d+/\d+\] Building (\S+)", out))
     if core_broken:
         return [], [nm for _, nm in starts], ["the translated file BS/Generated/Core.lean does not elaborate: " + out[-400:]]
     lost = []
@@ -106,6 +106,9 @@ def tie_status(untranslated):
             lost.append(nm)
             lost_words.add(nm)
     broken = [nm for nm in failing if nm not in lost]
+    if not failing and not lost:
+        # the module did not build but no theorem could be blamed: treat every tie as unavailable
+        return [], [nm for _, nm in starts], ["BS.Proofs.GenTie did not build: " + out[-300:]]
     witness = []
     if broken:
         rc, o2 = run(["lake", "env", "lean", "--run", "GenDiff.lean"], cwd=LEAN, timeout=900)
